@@ -195,6 +195,33 @@ class Check:
             fcntl.flock(lock, fcntl.LOCK_UN)
             lock.close()
 
+    def lock_package(self):
+        """Hold an exclusive lock on the lake package for the rest of this process.  Needed by
+        translator-tied checks: regeneration rewrites files inside the package and must not
+        interleave with another run (e.g. a seeded-change run with another TYPHON_REPO)."""
+        os.makedirs(os.path.join(self.pkgdir, ".lake"), exist_ok=True)
+        self._runlock = open(os.path.join(self.pkgdir, ".lake", "verif-run.lock"), "w")
+        fcntl.flock(self._runlock, fcntl.LOCK_EX)
+
+    def guard(self, fn, case=None, what="real code"):
+        """Run fn(); an exception raised from INSIDE the library under test becomes a violation
+        (the property's inputs are valid), an exception from the harness itself stays an
+        infrastructure error."""
+        try:
+            return fn()
+        except (SystemExit, InfraError):
+            raise
+        except Exception as e:
+            tb = traceback.extract_tb(e.__traceback__)
+            repo = os.path.realpath(REPO)
+            inside = [f for f in tb if os.path.realpath(f.filename).startswith(os.path.join(repo, "typhon"))]
+            if not inside:
+                raise
+            last = inside[-1]
+            self.violation("raised", f"{what} raised {type(e).__name__}: {str(e)[:200]} at {os.path.relpath(last.filename, repo)}:{last.lineno}",
+                           case if case is not None else {"fn": "exception", "traceback": [f"{os.path.basename(f.filename)}:{f.lineno} {f.name}" for f in tb[-6:]]})
+            return None
+
     def regenerate(self):
         """hook for translator-tied properties: overwritten by gen-based checks"""
         return True
@@ -222,7 +249,9 @@ class Check:
                 lemma_names += lean_theorems(f)
         self.theorem_names = names
         self.obligations = len(names) + len(lemma_names)
-        self.checker_cmd = f"cd lean/{self.pkg} && lake build {' '.join(targets)} && lake env lean <audit of {len(names) + len(lemma_names)} theorems>"
+        self.n_property_theorems = len(names)
+        self.checker_cmd = (f"cd lean/{self.pkg} && lake build {' '.join(targets)} && lake env lean .lake/audit_{self.prop}.lean"
+                            f"   # the audit file (written by the check) asserts the axioms of {len(names)} property theorems + {len(lemma_names)} helper lemmas")
         tok = forbidden_tokens([self.props_file] + self.lemma_files + self.model_files)
         if tok:
             self.broken_obligations.append("forbidden construct: " + "; ".join(tok[:5]))
@@ -400,6 +429,8 @@ class Check:
             "discharged": self.discharged,
             "checker_cmd": self.checker_cmd or "lake build",
             "trusted_base": self.trusted,
+            "property_theorems": getattr(self, "n_property_theorems", 0),
+            "helper_lemmas": max(self.obligations - getattr(self, "n_property_theorems", 0), 0),
             "theorems": {k: self.audit.get(k, "NOT-CHECKED") for k in getattr(self, "theorem_names", [])},
             "broken_obligations": self.broken_obligations,
             "evaluations": self.evaluations,
